@@ -20,7 +20,7 @@ META = {
     ),
     "anchors": ["abelian_core.calc_reshape_args", "abelian_core.AbelianArray.reshape"],
     "floors": {
-        "quick": {"evaluations": 60000, "distinct_nontrivial": 400, "tables": {"array/reshape": 3000, "array/roundtrip": 1500, "routine/forward": 40000, "routine/backward": 30000, "feature/nonzero-charge-singleton": 200, "feature/fused-axis": 200, "kind/fermionic": 500}},
+        "quick": {"evaluations": 60000, "distinct_nontrivial": 400, "tables": {"array/reshape": 3000, "array/roundtrip": 1500, "routine/forward": 40000, "routine/backward": 30000, "routine/with-fused-axes": 50000, "routine/plans-that-unfuse-and-expand": 2000, "array/expand-or-unfuse-target": 1500, "feature/nonzero-charge-singleton": 200, "feature/fused-axis": 200, "kind/fermionic": 500}},
         "thorough": {"evaluations": 300000, "distinct_nontrivial": 8000, "tables": {"array/reshape": 100000, "routine/forward": 40000}},
     },
     "exhaustive": {"quick": False, "thorough": False},
@@ -152,6 +152,72 @@ def routine_unreachable(ctx, ac, rng):
         ctx.violation("routine-wrong-plan", f"calc_reshape_args({shape}, {tgt}): {e}", {"shape": shape, "target": tgt, "plan": repr(plan)})
 
 
+def routine_with_fused(ctx, ac, rng):
+    """Shapes with already-fused axes (consistent ones: fused size == product of sub-sizes, all
+    sub-sizes >= 2, so the known parse ambiguity cannot occur) and targets that unfuse some of
+    them, merge adjacent axes, drop and INSERT size-one axes. The routine either refuses
+    (ValueError) or returns a plan that leads exactly to the target."""
+    n = rng.randint(1, 4)
+    shape, subs = [], []
+    for _ in range(n):
+        r = rng.random()
+        if r < 0.45:
+            k = rng.randint(2, 3)
+            ss = tuple(rng.choice([2, 3, 4]) for _ in range(k))
+            shape.append(int(np.prod(ss)))
+            subs.append(ss)
+        elif r < 0.6:
+            shape.append(1)
+            subs.append(None)
+        else:
+            shape.append(rng.choice([2, 3, 4, 6]))
+            subs.append(None)
+    # decide per axis: unfuse or keep
+    atoms = []
+    for d, ss in zip(shape, subs):
+        if ss is not None and rng.random() < 0.6:
+            atoms += [("u", x) for x in ss]
+        else:
+            atoms.append(("k", d))
+    # merge runs of adjacent KEPT plain axes only (merging across an unfused group is a
+    # different parse); drop ones; insert ones
+    tgt = []
+    i = 0
+    while i < len(atoms):
+        kind, d = atoms[i]
+        if kind == "k" and d != 1 and i + 1 < len(atoms) and atoms[i + 1][0] == "k" and rng.random() < 0.3:
+            tgt.append(d * atoms[i + 1][1])
+            i += 2
+            continue
+        if d == 1 and rng.random() < 0.5:
+            i += 1
+            continue
+        tgt.append(d)
+        i += 1
+    for _ in range(rng.choice([0, 1, 1, 2])):
+        tgt.insert(rng.randint(0, len(tgt)), 1)
+    shape, subs, tgt = tuple(shape), tuple(subs), tuple(tgt)
+    ctx.evaluated()
+    ctx.count("routine", "with-fused-axes")
+    try:
+        plan = ac.calc_reshape_args(shape, tgt, subs)
+    except ValueError:
+        ctx.count("routine", "refused")
+        return
+    except Exception as e:
+        ctx.count("routine", f"unclean-refusal-{type(e).__name__}")
+        return
+    if plan[0]:
+        ctx.count("routine", "plans-that-unfuse")
+    if plan[0] and plan[2]:
+        ctx.count("routine", "plans-that-unfuse-and-expand")
+    try:
+        got, _ = simulate(shape, subs, plan)
+        assert got == tgt, f"plan {plan} leads to {got}"
+    except AssertionError as e:
+        ctx.violation("routine-wrong-plan", f"calc_reshape_args({shape}, {tgt}, {subs}): {e}", {"shape": shape, "target": tgt, "subsizes": repr(subs), "plan": repr(plan)})
+
+
 # ------------------------------------------------------------------------------ array level
 def sumsq(x):
     return sum(float(np.sum(np.abs(np.asarray(b)) ** 2)) for b in x.blocks.values())
@@ -276,7 +342,24 @@ def array_case(ctx, rng):
         targets = rng.sample(targets, ctx.n(10, 40))
     n2 = sumsq(x)
     mags = magnitudes(x)
-    for tgt in targets:
+    # targets that also INSERT size-one axes and / or unfuse consistent fused axes
+    extra = []
+    for t in rng.sample(targets, min(3, len(targets))):
+        t2 = list(t)
+        for _ in range(rng.randint(1, 2)):
+            t2.insert(rng.randint(0, len(t2)), 1)
+        extra.append(tuple(t2))
+    subs = subsizes_of(x)
+    consistent = [i for i, (ix, ss) in enumerate(zip(x.indices, subs)) if ss and all(d >= 2 for d in ss) and ix.size_total == int(np.prod(ss))]
+    if consistent:
+        i = rng.choice(consistent)
+        t2 = list(shape[:i]) + list(subs[i]) + list(shape[i + 1 :])
+        extra.append(tuple(t2))
+        t3 = list(t2)
+        t3.insert(rng.randint(i + 1, len(t3)), 1)
+        extra.append(tuple(t3))
+    for tgt in list(targets) + extra:
+        is_extra = tgt in extra
         req = list(tgt)
         if req and rng.random() < 0.2:
             req[rng.randrange(len(req))] = -1
@@ -296,6 +379,10 @@ def array_case(ctx, rng):
         def V(mech, msg, w, amb=amb):
             ctx.violation(AMBIG if amb else mech, msg, w)
 
+        if not o.ok and is_extra and isinstance(o.exc, ValueError):
+            # targets outside the round-trip clause (inserted ones / unfusing) may be refused cleanly
+            ctx.count("array", "extra-target-refused")
+            continue
         if not o.ok:
             mech = f"reshape-raises-{o.excname}"
             if tgt == () and o.excname == "IndexError":
@@ -311,6 +398,8 @@ def array_case(ctx, rng):
         if y.ndim != len(tgt):
             V("reshape-rank", f"rank {y.ndim} != requested {len(tgt)}", wit)
             continue
+        if is_extra:
+            ctx.count("array", "expand-or-unfuse-target")
         if any(ix.size_total > d for ix, d in zip(y.indices, tgt)):
             V("reshape-axis-larger", f"result shape {tuple(ix.size_total for ix in y.indices)} exceeds requested {tgt}", wit)
             continue
@@ -319,6 +408,11 @@ def array_case(ctx, rng):
             continue
         if not np.array_equal(magnitudes(y), mags):
             V("reshape-magnitudes", "multiset of stored magnitudes changed", wit)
+            continue
+        if is_extra:
+            # post-conditions only: the round-trip clause covers merging / dropping targets
+            if sparse or ferm:
+                ctx.nontrivial((struct_sig(x), tgt, "extra"))
             continue
         # and back
         o2 = ctx.call(lambda: y.reshape(shape))
@@ -358,4 +452,6 @@ def run(ctx):
         ctx.count("enum_complete", "routine-box")
     for _, rng in ctx.cases("routine-arbitrary", ctx.budget(100000, 1500000)):
         ctx.run_case(routine_unreachable, ctx, ac, rng)
+    for _, rng in ctx.cases("routine-fused", ctx.budget(150000, 2000000)):
+        ctx.run_case(routine_with_fused, ctx, ac, rng)
     hooks.uninstall()
